@@ -158,13 +158,28 @@ static void second_instance_job(Ctx *c, int64_t arg) {
     if (!ok) c->fail("intruder.roundtrip", "a second instance (N=%zu ck=%d aux=%lld) that stored, validated and fetched while another instance's medium call was pending got %d/%d/%d, image %s, checksum %s", cf.N, cf.ck, (long long)cf.aux, (int)a1, (int)a2, (int)a3, back == img ? "intact" : "wrong", "see medium");
 }
 
+// An earlier instance in this process whose store broke off: the medium failed at its k-th call. The scenario's instance shares nothing with it.
+static void earlier_instance_job(Ctx *c, int64_t arg) {
+    Medium *outer = g_med;
+    Medium m2; m2.c = c; Config cf;
+    cf.N = 4 + (size_t)(arg & 7); cf.ck = (int)((arg >> 3) % 5); cf.init = cf.ck ? 0x77u + (uint32_t)arg : 0; cf.place = 32 + (uint32_t)((arg >> 6) & 31); cf.aux = ((arg >> 11) & 1) ? (int64_t)((arg >> 12) & 7) : -1;
+    m2.place = cf.place; m2.region = cf.cks() + cf.N; m2.mem.assign(GUARD + m2.region + GUARD, 0x3c);
+    m2.fault.at = (int64_t)((arg >> 15) & 3); m2.fault.kind = ((arg >> 17) & 1) ? 1 : 2; m2.fault.arg = 1;
+    g_med = &m2;
+    Store st2; st2.make(cf);
+    Bytes img(cf.N, 0x6b);
+    (void)persistent_store(&st2.ps, img.data()); (void)persistent_validate(&st2.ps);
+    g_med = outer;
+    COUNT("probe.earlier_instance_store_broke_off_before_the_scenario");
+}
+
 struct PsHarness : Harness {
     const char *name() const override { return "pssim"; }
     std::vector<std::string> props() const override { return {"C10", "C11"}; }
     std::string level(const std::string &p) const override { return p == "C11" ? "fault_enumeration" : "exploration"; }
     std::vector<std::string> probes(const std::string &p) const override {
-        if (p == "C10") return {"aux_size_0", "aux_size_1", "aux_size_N_minus_1", "aux_size_N", "aux_size_N_plus_1", "partial_store_ends_at_last_octet", "overflow_pair_refused", "reconfigured_checksum_width", "placed_before_checksum_selection", "operation_failed_then_session_continued", "image_of_64k_octets_or_more", "second_instance_worked_during_a_medium_call", "instance_never_placed"};
-        return {"crash_between_data_and_checksum_write", "tear_inside_checksum", "short_read_in_last_call", "validated_new_image_after_cut", "validated_old_image_after_cut"};
+        if (p == "C10") return {"earlier_instance_store_broke_off_before_the_scenario", "aux_size_0", "aux_size_1", "aux_size_N_minus_1", "aux_size_N", "aux_size_N_plus_1", "partial_store_ends_at_last_octet", "overflow_pair_refused", "reconfigured_checksum_width", "placed_before_checksum_selection", "operation_failed_then_session_continued", "image_of_64k_octets_or_more", "second_instance_worked_during_a_medium_call", "instance_never_placed"};
+        return {"earlier_instance_store_broke_off_before_the_scenario", "crash_between_data_and_checksum_write", "tear_inside_checksum", "short_read_in_last_call", "validated_new_image_after_cut", "validated_old_image_after_cut"};
     }
     uint64_t runs(const std::string &p, const Tier &t) const override {
         if (p == "C11") return t.thorough() ? 3000000 : 500000;
@@ -245,6 +260,7 @@ struct PsHarness : Harness {
     Json gen(const std::string &prop, Rng &r, const Tier &t, uint64_t) override {
         Json p = Json::obj();
         Json cf = gen_config(r, t);
+        if (r.chance(1, 6)) p["prelude"] = (long long)r.below(1 << 18);   // an earlier instance whose store broke off
         if (prop == "C11" && !t.thorough() && cf.geti("size") > 24) cf["size"] = 24;
         if (prop == "C10" && r.chance(1, t.thorough() ? 400 : 1500)) {   // rarely an image of 64 KiB and more (sizes and offsets that do not fit 16 bits)
             static const int64_t BIG[] = {65535, 65536, 65537, 65540, 70000, 131073};
@@ -338,6 +354,7 @@ struct PsHarness : Harness {
     }
 
     void exec(const Json &plan, Ctx &c) override {
+        if (plan.has("prelude")) earlier_instance_job(&c, plan.geti("prelude"));
         if (c.prop == "C11") exec_c11(plan, c); else exec_c10(plan, c);
     }
 
